@@ -261,19 +261,22 @@ theorem addVariable_cases (cfg : Cfg) (s : Store) (name : Name) (v : Operand) (d
     by_cases hat : (cfg.addVarChecksAttrs && s.attrs.contains name) = true
     · left; exact ⟨_, by rw [if_pos hat]⟩
     · rw [if_neg hat]
-      cases hn : newArray s.n v with
-      | error e => left; exact ⟨e, rfl⟩
-      | ok a =>
-        dsimp only
-        cases ht : astype (effKind s dtype) a with
+      by_cases hk : (cfg.addVarChecksKeys && s.dictKeys.contains ("_" ++ name)) = true
+      · left; exact ⟨_, by rw [if_pos hk]⟩
+      · rw [if_neg hk]
+        cases hn : newArray s.n v with
         | error e => left; exact ⟨e, rfl⟩
-        | ok a' =>
+        | ok a =>
           dsimp only
-          by_cases hd : firstDim a' ≠ s.n
-          · left; exact ⟨.dimension, by rw [if_pos hd]⟩
-          · right
-            refine ⟨a', astype_rank1 (newArray_rank1 hn) ht, by simpa using hd, hc, hat, ?_⟩
-            rw [if_neg hd]
+          cases ht : astype (effKind s dtype) a with
+          | error e => left; exact ⟨e, rfl⟩
+          | ok a' =>
+            dsimp only
+            by_cases hd : firstDim a' ≠ s.n
+            · left; exact ⟨.dimension, by rw [if_pos hd]⟩
+            · right
+              refine ⟨a', astype_rank1 (newArray_rank1 hn) ht, by simpa using hd, hc, hat, ?_⟩
+              rw [if_neg hd]
 
 theorem addVariable_ext (s : Store) (name : Name) (v : Operand) (dtype : Option Kind) :
     Ext s (addVariable cfg s name v dtype).1 := by
@@ -307,6 +310,7 @@ theorem addVariable_failed {s : Store} {name : Name} {v : Operand} {dtype : Opti
 def addVarResult (cfg : Cfg) (s : Store) (name : Name) (v : Operand) (dtype : Option Kind) : Except Exc Series :=
   if s.index.contains name then .error .duplicateName
   else if cfg.addVarChecksAttrs && s.attrs.contains name then .error .duplicateName
+  else if cfg.addVarChecksKeys && s.dictKeys.contains ("_" ++ name) then .error .duplicateName
   else match newArray s.n v with
     | .error e => .error e
     | .ok a => match astype (effKind s dtype) a with
@@ -322,12 +326,14 @@ theorem addVariable_eq (s : Store) (name : Name) (v : Operand) (dtype : Option K
   · simp [hc]
   · by_cases hat : cfg.addVarChecksAttrs = true ∧ name ∈ s.attrs
     · simp [hc, hat]
-    · cases hn : newArray s.n v with
-      | error e => simp [hc, hat, hn]
-      | ok a =>
-        cases ht : astype (effKind s dtype) a with
-        | error e => simp [hc, hat, hn, ht]
-        | ok a' => by_cases hd : firstDim a' = s.n <;> simp [hc, hat, hn, ht, hd]
+    · by_cases hk : cfg.addVarChecksKeys = true ∧ ("_" ++ name) ∈ s.dictKeys
+      · simp [hc, hat, hk]
+      · cases hn : newArray s.n v with
+        | error e => simp [hc, hat, hk, hn]
+        | ok a =>
+          cases ht : astype (effKind s dtype) a with
+          | error e => simp [hc, hat, hk, hn, ht]
+          | ok a' => by_cases hd : firstDim a' = s.n <;> simp [hc, hat, hk, hn, ht, hd]
 
 /-! ### setAttr / setItem / positional and label sets -/
 
